@@ -26,7 +26,7 @@ def main():
         try:
             for chk in [prop] + ALSO.get(sid, []):
                 t0 = time.time()
-                r = sh("cd %s && ./vcheck %s --tier quick --no-evidence" % (ROOT, chk), timeout=3000)
+                r = sh("cd %s && nice -n 15 ./vcheck %s --tier quick --no-evidence" % (ROOT, chk), timeout=3000)
                 lines = r.stdout.strip().splitlines()
                 viol = [l for l in lines if l.startswith("VIOLATION")]
                 detail = [l.strip() for l in lines if l.strip().startswith("detail:")]
